@@ -89,15 +89,15 @@ HANG_S = 240  # seconds; run() lowers it to 100 in the quick tier (largest legit
 # points), about 1.1e5 cases / 3.5e5 compared states in total:
 #   monitor            worst observed    allowed
 #   kepler_exact            49.4           5000      (RK45 dominates; DOP853 stays below 8)
-#   sp_reduces              45.9           5000
+#   sp_reduces              48.6           5000
 #   energy                  13.6           1500
 #   angmom                   2.13           250
 #   universal               12.0           1500
 #   compose                  9.6 (sp 8.7)  1000
-#   batch_vs_single         17.2 (sp 9.1)  2000      (on top of the 2*sqrt(K) share of the RMS error norm)
+#   batch_vs_single         17.2 (sp 13.1) 2000      (on top of the 2*sqrt(K) share of the RMS error norm)
 #   bulk_vs_single           5.1 (sp 5.9)   600
 #   event_restart           11.4 (sp 14.7) 1500
-#   epoch_resplit            8.6           1000
+#   epoch_resplit           10.4           1200
 #   scenario_truth          25.1           3000      (970 scenario pairs, 2.6e4 rows; unit = unit(dt) + n_steps * unit(step))
 # e.g. kepler_exact allows 3.9 m after one LEO revolution and 0.9 km after a day (16 rev) where 8e-4 km is observed;
 # a wrong stride, a wrong epoch origin, a dropped restart or rtol = 1e-6 are 1e4 .. 1e9 units.
@@ -111,7 +111,7 @@ TOL = {
     "batch_vs_single": 2000.0,
     "bulk_vs_single": 600.0,
     "event_restart": 1500.0,
-    "epoch_resplit": 1000.0,
+    "epoch_resplit": 1200.0,
     "scenario_truth": 3000.0,
 }
 
